@@ -187,10 +187,12 @@ func (fc *FnCtx) execInstr(fr *Frame, st *State, reach string, ins ssa.Instructi
 	case *ssa.RunDefers:
 		fc.runDefers(fr, st, reach)
 	case *ssa.Go:
-		fc.assumption("A-GO: `go` statements have no effect on the spawning function's state")
+		fc.assumption("A-GO: `go` statements have no effect on the spawning function's state beyond the tokens their contract consumes")
+		fc.spawn(fr, st, reach, t)
 	case *ssa.Send:
 		fc.assumption("A-CHAN: channel operations are nondeterministic (no FIFO, no blocking semantics)")
 		fc.atSend(fr, st, reach, fc.value(fr, st, t.Chan), fc.value(fr, st, t.X))
+		fc.chanSend(fr, st, reach, fc.value(fr, st, t.Chan), fc.value(fr, st, t.X), "true")
 	case *ssa.Select:
 		fr.vals[t] = fc.selectOp(fr, st, t)
 	default:
@@ -237,6 +239,9 @@ func (fc *FnCtx) execAlloc(fr *Frame, st *State, t *ssa.Alloc) Val {
 	if structOf(et) != nil {
 		ref := fc.newRef(st, "new_"+t.Comment)
 		a := &Addr{Kind: AObj, Base: ref, Root: et, T: et}
+		if g := fc.ownedGhost(et); g != "" {
+			fc.storeLoc(st, loc{name: "GH$" + g, idx: []string{ref}, sort: "Int"}, "1")
+		}
 		fc.storeNoGuard(st, a, zeroVal(et))
 		return Val{K: KAddr, T: t.Type(), A: a}
 	}
@@ -385,6 +390,7 @@ func (fc *FnCtx) unop(fr *Frame, st *State, reach string, t *ssa.UnOp) Val {
 		fc.assumption("A-CHAN: channel operations are nondeterministic (no FIFO, no blocking semantics)")
 		et := t.X.Type().Underlying().(*types.Chan).Elem()
 		v := fc.freshVal(st, et, "recv")
+		fc.chanRecv(st, reach, x, v, "true")
 		if t.CommaOk {
 			ok := fc.sc.fresh("recvok", "Bool")
 			return Val{K: KTuple, T: t.Type(), Fs: []Val{v, boolVal(ok)}}
@@ -835,14 +841,24 @@ func (fc *FnCtx) selectOp(fr *Frame, st *State, t *ssa.Select) Val {
 		lo = "(- 1)"
 	}
 	fc.sc.assume(tAnd(sx("<=", lo, idx), sx("<", idx, num(int64(len(t.States))))))
-	for _, sst := range t.States {
+	for k, sst := range t.States {
 		if sst.Send != nil {
 			fc.atSend(fr, st, fc.curReach, fc.value(fr, st, sst.Chan), fc.value(fr, st, sst.Send))
+			fc.chanSend(fr, st, fc.curReach, fc.value(fr, st, sst.Chan), fc.value(fr, st, sst.Send), tEq(idx, num(int64(k))))
 		}
 	}
 	v := Val{K: KTuple, T: tu, Fs: []Val{intVal(tu.At(0).Type(), idx), boolVal(fc.sc.fresh("selok", "Bool"))}}
-	for i := 2; i < tu.Len(); i++ {
-		v.Fs = append(v.Fs, fc.freshVal(st, tu.At(i).Type(), "selrecv"))
+	ri := 2
+	for k, sst := range t.States {
+		if sst.Send != nil {
+			continue
+		}
+		if ri < tu.Len() {
+			got := fc.freshVal(st, tu.At(ri).Type(), "selrecv")
+			v.Fs = append(v.Fs, got)
+			fc.chanRecv(st, fc.curReach, fc.value(fr, st, sst.Chan), got, tEq(idx, num(int64(k))))
+			ri++
+		}
 	}
 	return v
 }
@@ -866,4 +882,33 @@ func (fc *FnCtx) atSend(fr *Frame, st *State, reach string, ch Val, sent Val) {
 		t := env.evalBool(as.Clause.Expr)
 		fc.oblige(fr, "atsend", as.Field+": "+clauseName(as.Clause), reach, t, env.quant, nil)
 	}
+}
+
+// spawn: `go f(args)` checks f's requires and hands over the tokens f consumes.
+func (fc *FnCtx) spawn(fr *Frame, st *State, reach string, g *ssa.Go) {
+	com := g.Common()
+	callee := com.StaticCallee()
+	if callee == nil {
+		return
+	}
+	con := fc.eng.contracts[callee.String()]
+	if con == nil {
+		return
+	}
+	var args []Val
+	for _, a := range com.Args {
+		args = append(args, fc.value(fr, st, a))
+	}
+	vars := bindParams(con, callee, args)
+	if len(con.Consumes) == 0 {
+		if len(con.Requires) > 0 {
+			fc.assumption("A-GO-REQ: preconditions of the goroutine body are assumed, not checked, at `go " + shortName(callee) + "`")
+		}
+		return
+	}
+	for _, cl := range con.Requires {
+		env := fc.specEnv(st, nil, vars, con.Pkg, nil, cl.Text)
+		fc.oblige(fr, "requires", "go "+shortName(callee)+": "+clauseName(cl), reach, env.evalBool(cl.Expr), env.quant, nil)
+	}
+	fc.consume(fr, st, reach, con, vars, con.Consumes, "go "+shortName(callee), "true")
 }
